@@ -85,9 +85,13 @@ def build(x):
     pr.sub('V-COMB', r'let slot = self\s*\.w\s*\.get_or_insert_with\(\|\| Slot::new\(self\.init\.clone\(\), ts\)\);',
            'if self.w.is_none() { self.w = Some(Slot::new(self.init.clone(), ts)); }\n                let slot = self.w.as_mut().unwrap();',
            detail='Option::get_or_insert_with(f) == if none { insert f() }; as_mut().unwrap()', flags=0, must=True)
-    pr.sub('V-COMB', r'ret\.or_else\(\|\| self\.w\.take\(\)\.map\(\|s\| WindowResult::Item\(s\.acc\.output\(\)\)\)\)',
-           'match ret { Some(__r) => Some(__r), None => match self.w.take() { Some(s) => Some(WindowResult::Item(s.acc.output())), None => None } }',
-           detail='Option::or_else / Option::map replaced by their definitions', flags=0, must=True)
+    # Option::map / Option::or_else by their definitions (two independent rewrites)
+    pr.sub('V-COMB', r'self\.w\.take\(\)\.map\(\|s\| WindowResult::Item\(s\.acc\.output\(\)\)\)',
+           '(match self.w.take() { Some(s) => Some(WindowResult::Item(s.acc.output())), None => None })',
+           detail='Option::map(f) replaced by its definition', flags=0)
+    pr.sub('V-COMB', r'ret\.or_else\(\|\| (?P<x>\(match self\.w\.take\(\) \{.*?None => None \}\))\)',
+           lambda m: 'match ret { Some(__r) => Some(__r), None => ' + m.group('x') + ' }',
+           detail='Option::or_else(f) replaced by its definition', flags=0)
     pr.name_result('r')
     pr.add_spec(SPEC)
     pieces += ["impl<A: WindowAccumulator> SessionWindowManager<A>\nwhere\n    A::In: Data,\n    A::Out: Data,\n{", pr, "}"]
